@@ -47,7 +47,7 @@ PLAN = {
     "C34": [SLEEP, CONNECT],
 }
 CLIENT_HALF = ("C06", "C23")     # properties that also speak about the client library
-REPLAY_MAX = int(os.environ.get("VERIF_REPLAY_MAX", "120000"))   # thorough: most transitions of one configuration replayed
+REPLAY_MAX = int(os.environ.get("VERIF_REPLAY_MAX", "80000"))   # thorough: most transitions of one configuration replayed
 QUICK_SAMPLE = int(os.environ.get("VERIF_QUICK_SAMPLE", "2500"))     # schedules per MC configuration executed in the quick tier
 SHAPE_CAP = int(os.environ.get("VERIF_SHAPE_CAP", "9000"))           # ... raised to one per schedule shape, up to this many
 
@@ -335,6 +335,8 @@ def run(prop, tier, replay=None):
                     scheds = stratified(base, QUICK_SAMPLE, rnd) + stratified(ext, QUICK_SAMPLE, rnd)
                 else:
                     scheds = stratified(scheds, QUICK_SAMPLE, rnd)
+            elif len(scheds) > REPLAY_MAX:
+                scheds = stratified(scheds, REPLAY_MAX, rnd)      # memory: ~150 kB of trace per schedule
             mc_info.append(dict(config=c["family"] + ":" + "+".join(c["groups"]), distinct=res["distinct"],
                                 generated=res["generated"], schedules=total, executed=len(scheds)))
             scenarios += to_scenarios(scheds, "%s-mc%d" % (prop, k))
